@@ -63,13 +63,14 @@ static Result run_case (const Case &c)
 	Rng qr ((uint64_t) c.geti ("qseed")) ;
 	std::vector<long long> Q = make_partition_updates (qr, N, Bn, s.ch, ts, autohdr ? 0 : (int) c.geti ("upd")) ;
 	if (!autohdr && N > 0 && std::find (Q.begin (), Q.end (), 0) == Q.end ()) Q.insert (Q.begin () + 1 + (Q.size () > 1), 0) ;
+	bool did_seekback = false ;
 	// sample-granular encodings: sometimes seek the write pointer back and overwrite (the same source samples) before an update
 	if (c.geti ("seekback") && is_granular (s.format) && N > 4)
 	{	std::vector<long long> Q2 ; long long acc = 0 ;
 		for (long long p : Q)
 		{	if (p == 0 && acc > 2 && qr.below (2) == 0)
 			{	long long k = (long long) qr.below ((uint64_t) acc) ; long long len = 1 + (long long) qr.below ((uint64_t) (acc - k)) ;
-				if (k + len < acc) { Q2.push_back (SEEK_MARK + k) ; Q2.push_back (len) ; Q2.push_back (0) ; Q2.push_back (SEEK_MARK + acc) ; r.classes.push_back ("seekback:yes") ; }
+				if (k + len < acc) { Q2.push_back (SEEK_MARK + k) ; Q2.push_back (len) ; Q2.push_back (0) ; Q2.push_back (SEEK_MARK + acc) ; did_seekback = true ; }
 			}
 			Q2.push_back (p) ;
 			if (p != 0) acc += p < 0 ? -p : p ;
@@ -79,7 +80,7 @@ static Result run_case (const Case &c)
 	}
 	auto fail = [&] (const char *kind, const std::string &d) { Result x = r ; x.ok = false ; x.kind = kind ; x.detail = d ; return x ; } ;
 	r.dhash = fnv_str (c.gets ("fmt") + "|" + c.gets ("ch") + "|" + std::to_string (N) + "|" + c.gets ("t") + "|" + join_ints (Q) + "|" + c.gets ("auto")) ;
-	r.classes = { std::string ("container:") + major_name (s.format), std::string ("codec:") + cd->name, std::string ("mode:") + (autohdr ? "auto" : "explicit") } ;
+	r.classes = { std::string ("container:") + major_name (s.format), std::string ("codec:") + cd->name, std::string ("mode:") + (autohdr ? "auto" : "explicit"), std::string ("seekback:") + (did_seekback ? "yes" : "no") } ;
 
 	MemFile m ; std::vector<Snapshot> snaps ; int updates = 0 ;
 	std::string e = write_partitioned (m, s, t, src.p, N, Q, autohdr, &snaps, &updates) ;
